@@ -1,0 +1,8 @@
+//go:build verif
+
+package circuitbreaker
+
+// VerifBreakersOfResource exposes the live breakers of a resource (verification builds only).
+func VerifBreakersOfResource(resource string) []CircuitBreaker {
+	return getBreakersOfResource(resource)
+}
